@@ -1265,6 +1265,56 @@ fn c15_positions(st: &mut St, info: &Info, before: &StatsSnap, after: &StatsSnap
     }
 }
 
+/// C15 for `alloc_try_with_mut` returning `Ok`: the `Result<T, E>` is built in place and everything of it
+/// beyond the payload is given back. As documented (`allocated() == offset_of!(Result<T, E>, Ok.0) +
+/// size_of::<T>()` when bumping upwards) the part of the `Result` that lies *before* the payload in bump
+/// direction cannot be given back; the position must end exactly at the payload's far edge (aligned to the
+/// minimum alignment), and the `Result` must have been placed tightly at the old position.
+/// `f` = (payload address, payload size, payload offset in the Result, size and alignment of the Result)
+fn c15_try_with(st: &mut St, info: &Info, before: &StatsSnap, after: &StatsSnap, what2: &str, f: (usize, usize, usize, usize, usize)) {
+    let (addr, size, off, rsize, ralign) = f;
+    let Some(c) = after.current.as_ref() else {
+        st.fail("C15/result-in-current-chunk", format!("{what2}: no current chunk after a successful call"));
+        return;
+    };
+    let cur_before = before.current.as_ref().map(|c| c.chunk_start);
+    let changed_chunk = Some(c.chunk_start) != cur_before;
+    if changed_chunk {
+        st.outgrew = true;
+        st.class("outgrew_chunk");
+    }
+    let ma = info.min_align;
+    if addr < c.content_start || addr + size > c.content_end {
+        st.fail("C15/result-in-current-chunk", format!("{what2}: value {addr:#x}+{size} outside the current chunk"));
+        return;
+    }
+    let base = if !changed_chunk { before.current.as_ref().map(|c| c.pos).unwrap_or(0) } else if info.up { c.content_start } else { c.content_end };
+    if info.up {
+        let expect_pos = (addr + size + ma - 1) / ma * ma;
+        let expect_res = (base + ralign - 1) / ralign * ralign;
+        if c.pos != expect_pos || addr - off != expect_res {
+            st.fail("C15/advance-bound", format!("{what2}: old position {base:#x}, value at {addr:#x} (offset {off} in a Result of {rsize}@{ralign}), new position {:#x}; expected the Result at {expect_res:#x} and the position right after the value at {expect_pos:#x}", c.pos));
+        }
+    } else {
+        let expect_pos = addr / ma * ma;
+        // downwards the start of every allocation is aligned to max(alignment, minimum alignment)
+        let a = ralign.max(ma);
+        let expect_res = (base - rsize) / a * a;
+        if c.pos != expect_pos || addr - off != expect_res {
+            st.fail("C15/advance-bound", format!("{what2}: old position {base:#x}, value at {addr:#x} (offset {off} in a Result of {rsize}@{ralign}), new position {:#x}; expected the Result at {expect_res:#x} and the position at the value's start {expect_pos:#x}", c.pos));
+        }
+    }
+    // earlier chunks untouched
+    if let Some(k) = before.chunks.iter().position(|x| Some(x.chunk_start) == cur_before) {
+        let upto = if changed_chunk { k + 1 } else { k };
+        for (i, cb) in before.chunks[..upto.min(before.chunks.len())].iter().enumerate() {
+            if after.chunks.get(i).map(|x| x.pos) != Some(cb.pos) {
+                st.fail("C15/position-moved-without-finalise", format!("{what2}: position of earlier chunk {i} moved"));
+            }
+        }
+    }
+}
+
 /// C15: the `*_mut` allocation helpers (always finalise unless the iterator unwinds)
 fn helper_round<'a, T: Elem + Clone + PartialEq + 'a, A: MutBumpAllocatorCoreScope<'a> + bump_scope::traits::MutBumpAllocatorTyped + ?Sized>(st: &mut St, arena: &mut A, info: Info, r0: &Rec) {
     use bump_scope::traits::MutBumpAllocatorTypedScope;
@@ -1536,6 +1586,54 @@ fn concrete_c15(st: &mut St, h: &Hdr) {
                 round += 1;
                 let r0 = Rec(st.recs[st.pos]);
                 st.pos += 1;
+                if r0.b(4) % 8 == 7 && r0.b(13) % 2 == 0 {
+                    // alloc_try_with_mut: Ok keeps exactly the value, Err keeps nothing
+                    let before = probe(&*sc, info.up);
+                    let ok = r0.b(14) % 3 != 0;
+                    let try_ = r0.b(9) & 1 == 1;
+                    let var = r0.b(15) % 4;
+                    st.ops += 1;
+                    st.mixh(0x7717 ^ (var as u64) << 16 ^ (ok as u64) << 24);
+                    macro_rules! tw {
+                        ($T:ty, $E:ty, $tv:expr, $ev:expr) => {{
+                            let f = || -> Result<$T, $E> { if ok { Ok($tv) } else { Err($ev) } };
+                            let r = if try_ { sc.try_alloc_try_with_mut(f).ok() } else { Some(sc.alloc_try_with_mut(f)) };
+                            match r {
+                                Some(Ok(b)) => {
+                                    if *b != $tv {
+                                        st.fail("C15/final-contents", format!("alloc_try_with_mut::<{}, {}>: wrong value", stringify!($T), stringify!($E)));
+                                    }
+                                    // where the payload sits inside Result<T, E> (measured, offset_of! on enums is unstable)
+                                    let probe_val: Result<$T, $E> = Ok($tv);
+                                    let off = match &probe_val {
+                                        Ok(x) => x as *const $T as usize - &probe_val as *const Result<$T, $E> as usize,
+                                        Err(_) => 0,
+                                    };
+                                    Some(Some((&*b as *const $T as usize, std::mem::size_of::<$T>(), off, std::mem::size_of::<Result<$T, $E>>(), std::mem::align_of::<Result<$T, $E>>())))
+                                }
+                                Some(Err(_)) => Some(None),
+                                None => None,
+                            }
+                        }};
+                    }
+                    let fin = match var {
+                        0 => tw!(u64, u32, 0x1122_3344_5566_7788u64, 7u32),
+                        1 => tw!([u32; 3], [u32; 40], [1u32, 2, 3], [9u32; 40]),
+                        2 => tw!(u8, u64, 0x5au8, 1u64),
+                        _ => tw!([u8; 5], u8, [1u8, 2, 3, 4, 5], 2u8),
+                    };
+                    let what2 = format!("alloc_try_with_mut variant {var} (closure returns {})", if ok { "Ok" } else { "Err" });
+                    st.note(|| what2.clone());
+                    if let Some(fin) = fin {
+                        let after = probe(&*sc, info.up);
+                        st.class("try_with_mut");
+                        match fin {
+                            None => c15_positions(st, &info, &before, &after, &what2, None, false),
+                            Some(f) => c15_try_with(st, &info, &before, &after, &what2, f),
+                        }
+                    }
+                    continue;
+                }
                 helper_round::<Tr, _>(st, sc, info, &r0);
             }
         }};
